@@ -57,3 +57,58 @@ def message_frames(frames):
 
 def msg_tuple(f):
     return (f.get("side"), f.get("phase"), f.get("body"), f.get("id"))
+
+
+from ..ghost import LifeGhost
+
+
+class LifeCounting(LifeGhost):
+    def __init__(self, worlds):
+        LifeGhost.__init__(self, worlds)
+        self.counters = Counters()
+
+    def observe(self, ev, results, worlds):
+        self.counters.note(ev)
+        return LifeGhost.observe(self, ev, results, worlds)
+
+    def ghost(self):
+        g = LifeGhost.ghost(self)
+        g["counters"] = self.counters.state()
+        return g
+
+    def snapshot_pre(self):
+        self._pre_np = {k: (set(v["holders"]), set(v["attempted"]), set(v["released"]), v["mid"])
+                        for k, v in self.np.items()}
+        self._pre_mb = {k: dict(v["sides"]) for k, v in self.mb.items()}
+
+
+def rows_equal(a, b, ignore=()):
+    """compare two channel snapshots; `ignore` = set of (table, column) to blank"""
+    def norm(rows):
+        out = {}
+        for t, rs in rows.items():
+            xs = []
+            for r in rs:
+                r = dict(r)
+                for (tt, col) in ignore:
+                    if tt == t and col in r:
+                        r[col] = None
+                xs.append(json_key(r))
+            out[t] = sorted(xs)
+        return out
+    return norm(a) == norm(b)
+
+
+def json_key(r):
+    import json
+    return json.dumps(r, sort_keys=True, default=repr)
+
+
+def rows_diff(a, b):
+    out = {}
+    for t in a:
+        sa = sorted(json_key(r) for r in a[t])
+        sb = sorted(json_key(r) for r in b.get(t, []))
+        if sa != sb:
+            out[t] = {"removed": [x for x in sa if x not in sb], "added": [x for x in sb if x not in sa]}
+    return out
